@@ -5,7 +5,9 @@
    equal hashes for every Hasher.  wf_value: the payload has the shape its variant carries (the values
    that exist in Rust).  Float payloads are bit patterns: every NaN payload, both zeros are covered. *)
 Require Import SQV.Model.Str SQV.Model.Value SQV.Model.ValueRow SQV.Model.FloatBits SQV.Model.ValueEq
-  SQV.Generated.ValueTypes SQV.Generated.ValueTypesStatus SQV.Proofs.ValueConvProofs SQV.Proofs.ValueEqProofs.
+  SQV.Generated.ValueTypes SQV.Generated.ValueTypesStatus SQV.Proofs.ValueConvProofs SQV.Proofs.ValueEqProofs
+  SQV.Proofs.FloatBitsFlocq.
+From Flocq Require Import IEEE754.Binary IEEE754.Bits.
 
 Theorem C18_translation_complete : translation_ok = true.
 Proof. exact translation_complete. Qed.
@@ -80,3 +82,27 @@ Print Assumptions C18_teq_implies_same_hash_stream.
 Theorem C18_teq_many_is_not_one : forall a, teq (TMany [a]) (TOne a) = false.
 Proof. exact teq_many_is_not_one. Qed.
 Print Assumptions C18_teq_many_is_not_one.
+
+(* The bit-level IEEE comparison used above is Flocq's: for all bit patterns in range, ieee_eq32/64 a b holds
+   exactly when Bcompare on the decoded floats answers Some Eq, and is_nan32/64 is Flocq's is_nan.  These four
+   statements (and only these) depend on the axioms Flocq imports with the real numbers; they are listed in
+   coq/assumptions.allow. *)
+Theorem C18_ieee_eq32_is_flocq_compare :
+  forall a b, a < 4294967296 -> b < 4294967296 ->
+  (ieee_eq32 a b = true <-> Bcompare 24 128 (b32_of_bits (Z.of_N a)) (b32_of_bits (Z.of_N b)) = Some Eq).
+Proof. exact ieee_eq32_flocq. Qed.
+Print Assumptions C18_ieee_eq32_is_flocq_compare.
+
+Theorem C18_ieee_eq64_is_flocq_compare :
+  forall a b, a < 18446744073709551616 -> b < 18446744073709551616 ->
+  (ieee_eq64 a b = true <-> Bcompare 53 1024 (b64_of_bits (Z.of_N a)) (b64_of_bits (Z.of_N b)) = Some Eq).
+Proof. exact ieee_eq64_flocq. Qed.
+Print Assumptions C18_ieee_eq64_is_flocq_compare.
+
+Theorem C18_is_nan32_is_flocq : forall a, is_nan32 a = is_nan 24 128 (b32_of_bits (Z.of_N a)).
+Proof. exact is_nan32_flocq. Qed.
+Print Assumptions C18_is_nan32_is_flocq.
+
+Theorem C18_is_nan64_is_flocq : forall a, is_nan64 a = is_nan 53 1024 (b64_of_bits (Z.of_N a)).
+Proof. exact is_nan64_flocq. Qed.
+Print Assumptions C18_is_nan64_is_flocq.
